@@ -28,6 +28,7 @@ func runAliased(g *groups.G, p prog) (final string, steps []string, retMismatch 
 }
 
 func runC05(c *kc.Ctx) {
+	defer reportHungProbes(c)
 	c.SetRule("cases: (group, program) — random straight-line programs over ≤6 point and ≤4 scalar variables with Add/Sub/Neg/Mul/Null/Base/Set/Clone/dec and scalar ops; the generator reuses variables as destination and operands, so every aliasing pattern (r=a, r=b, a=b, r=a=b) occurs; non-trivial = program contains at least one statement whose destination is one of its operands; distinct by program text")
 	c.Assume("adapters over math/big, kilic, CIRCL, gnark: differential only", "model side: Lean interpreter is value-semantic by construction")
 	nProg := c.N(40, 1500)
